@@ -45,23 +45,14 @@ func (ec *ErrorContainer) AddError(err error) {
 // AddErrorList takes a list of errors and adds them to the container.  Any errors
 // which are nil will be dropped.
 func (ec *ErrorContainer) AddErrorList(el []error) {
-	if ec.errors_ == nil {
-		ec.errors_ = el
+	if ec == nil {
 		return
 	}
+	// Always copy, never adopt the caller's slice: nil entries must be
+	// dropped and the caller remains free to reuse its backing array.
 	for i := range el {
-		if el[i] != nil {
-			continue
-		}
-		// drat, long way around
-		for j := range el {
-			if el[j] != nil {
-				ec.errors_ = append(ec.errors_, el[j])
-			}
-		}
-		return
+		ec.AddError(el[i])
 	}
-	ec.errors_ = append(ec.errors_, el...)
 }
 
 // Errors returns either a non-empty list of errors, or nil.
